@@ -196,7 +196,7 @@ Proof. split; [exists (EPlain (s2b "x")); vm_compute; split; reflexivity|]. vm_c
    panic after the reply publishes nothing more *)
 Example program_order_nonvacuous :
   pubs (fst (run_callback (CtxCall (s2b "r0")) TCollection ex_rid [L 7 None]
-    [AAdd (VJson (s2b "5")) 3 (Ok tt); ATimeout 100; AReply; AReaccess; ARemove (-1) Absent; AReset])) =
+    [AAdd (VJson (s2b "5")) 3 (Ok tt); ATimeout 100000; AReply; AReaccess; ARemove (-1) Absent; AReset])) =
   [(s2b "event.t.m.add", s2b "{""value"":5,""idx"":3}");
    (s2b "r0", s2b "timeout:""100""");
    (s2b "r0", s2b "{""result"":null}");
